@@ -4,6 +4,9 @@ C04 — request binding. Shared vocabulary of the model and the spec: the type g
 value grammar `Val`, sources, options, the shipped results of the standard library (`Params`) and the
 byte-string helpers (`strings.TrimSpace`, `strings.Split`, `http.CanonicalHeaderKey` on ASCII).
 Core Lean only.
+
+Constants that mirror literals of the Go source are named defs (`@[reducible]`), tied to the regenerated
+`Gen/Consts.lean` by `Tie/Consts*.lean` (added by the owner of extract/; behaviour unchanged).
 -/
 namespace Rivaas.Bind
 
@@ -101,7 +104,13 @@ structure Cfg where
   baseAuto : Bool
   deriving Repr, Inhabited
 
-def Cfg.default : Cfg := { maxDepth := 32, maxSlice := 10000, maxMap := 1000, csv := false, baseAuto := false }
+/-- `DefaultMaxDepth`, `DefaultMaxSliceLen`, `DefaultMaxMapSize` of binding/options.go -/
+@[reducible] def defaultMaxDepth : Nat := 32
+@[reducible] def defaultMaxSliceLen : Nat := 10000
+@[reducible] def defaultMaxMapSize : Nat := 1000
+
+def Cfg.default : Cfg :=
+  { maxDepth := defaultMaxDepth, maxSlice := defaultMaxSliceLen, maxMap := defaultMaxMapSize, csv := false, baseAuto := false }
 
 /-- results of the standard library on one string, shipped by the harness (never recomputed):
     strconv.ParseInt/ParseUint base 10 and base 0, strconv.ParseFloat 64 (float64 bits, bits of
